@@ -51,6 +51,7 @@ class HopResult:
         self.raised: Optional[BaseException] = None
         self.dispatched: List[Tuple[str, Any]] = []   # (request text, verdict)
         self.endpoints: List[str] = []                # which endpoint's dispatcher was used
+        self.replies_written: Optional[int] = None    # aiohttp: HTTP replies actually written for this request
 
     def media_type(self) -> Optional[str]:
         return self.ctype.split(';')[0].strip().lower() if self.ctype else None
@@ -103,11 +104,18 @@ class FlaskHop:
         self.rpc = pj_flask.JsonRPC(path, status_by_error=STATUS_FUNCTIONS[status_fn], error_handlers={}, **dispatcher_kwargs)
         self.rpc.dispatcher.add_methods(self.service.registry())
         _wrap_dispatch(w, self.rpc.dispatcher, self.node, self.log)
+        # a second, independent extension object on the same application, created before the first is initialised
+        # (module-level extensions wired up later in an application factory)
+        self.other = pj_flask.JsonRPC('/other' + path.rstrip('/'), status_by_error=STATUS_FUNCTIONS[status_fn],
+                                      error_handlers={}, **dispatcher_kwargs)
+        self.other.dispatcher.add_methods(self.service.registry(['echo']))
+        _wrap_dispatch(w, self.other.dispatcher, self.node, self.log, 'other')
         if sub:
             d = self.rpc.add_endpoint(sub, error_handlers={}, **dispatcher_kwargs)
             d.add_methods(self.service.registry())
             _wrap_dispatch(w, d, self.node, self.log, 'sub')
         self.rpc.init_app(self.app)
+        self.other.init_app(self.app)
         self.client = self.app.test_client()
 
     def post(self, url: str, body: bytes, content_type: Optional[str]) -> HopResult:
@@ -194,6 +202,17 @@ class AiohttpHop:
             res.ctype = resp.headers.get('Content-Type')
             b = getattr(resp, 'body', None)
             res.body = b if isinstance(b, (bytes, bytearray)) else (resp.text.encode() if getattr(resp, 'text', None) else b'')
+            # what aiohttp's server does next with the handler's return value: write the reply on this connection
+            await resp.prepare(req)
+            await resp.write_eof()
+            writer = req._payload_writer
+            res.replies_written = writer.write_headers.call_count
+            if writer.write_headers.call_count:
+                line = writer.write_headers.call_args_list[0].args[0]
+                try:
+                    res.status = int(str(line).split()[1])
+                except (IndexError, ValueError):
+                    pass
 
         try:
             loop.run_until_complete(go())
